@@ -312,6 +312,13 @@ def stream_struct(tier, seed):
             pts = cut_points(rng, b, fields, tier) if not big else [len(b) - 1, len(b) - 4, max(0, len(b) - 70000), 3]
             for j in pts:
                 lines.append(P("%s.p%d" % (gid, j), entry, b[:j], param))
+        if entry in VISIT_ENTRIES and prefixes and not big:
+            # a Break on a truncated input: the Break must still win over the later "input ended"
+            cuts = sorted(set([min(len(b), x) for x in (80, 81, 84)] + [off + w for (_, off, w) in fields[:40]]))
+            rng.shuffle(cuts)
+            for j in sorted(cuts[:5]):
+                for i in (0, 1, 2):
+                    lines.append(P("%s.q%d_%d" % (gid, j, i), entry, b[:j], param, i))
         if entry in VISIT_ENTRIES:
             cap = maxbrk if maxbrk is not None else (24 if quick else 120)
             idx = list(range(nbrk + 1))
@@ -473,6 +480,12 @@ def stream_struct(tier, seed):
         lines.append(P("robig.full", "block", data))
         lines.append(P("robig.b777", "block", data, 0, 777))
         lines.append(P("robig.p%d" % (len(data) - 3), "block", data[:-3]))
+    # outpoints: boundary indices with null / non-null ids (coinbase-looking shapes)
+    for vout in (0, 1, 255, 256, 0x7FFFFFFF, 0x80000000, 0xFFFFFFFE, 0xFFFFFFFF):
+        for txid in (bytes(32), btc.rand_bytes(rng, 32), b"\xff" * 32):
+            op = txid + struct.pack("<I", vout)
+            group("outpoint", op, [("txid", 0, 32), ("vout", 32, 4)], 0, tag="opboundary", prefixes=False)
+            group("txin", op + b"\x00" + struct.pack("<I", 0xFFFFFFFF), [], 0, tag="opboundary", prefixes=False)
     # script lengths across the boundaries, and huge declared lengths
     for ln in [0, 1, 252, 253, 254, 255, 256, 65535, 65536]:
         sb = btc.cs(ln) + btc.rand_bytes(rng, ln)
